@@ -31,7 +31,7 @@ class NStream(object):
 
 
 def fingerprint(d):
-    return hashlib.sha1(repr((d.enc_case(), d.models, d.mhist, d.falsy, sorted(d.suspend.items()))).encode()).hexdigest()[:16]
+    return hashlib.sha1(repr((d.enc_case(), d.models, d.mhist, d.falsy, sorted(d.suspend.items()), d.start, d.mops)).encode()).hexdigest()[:16]
 
 
 # ---------------------------------------------------------------------------------------------
@@ -284,20 +284,36 @@ def judge_case(prop, stream_name, d, model_ans, runs, mon_answers, enum_states=F
 
 
 def restrict(d, m):
-    """the description as model `m` of the machine sees it (models of one machine are independent)"""
+    """the description as life `m` (without membership operations: model `m`) sees it (models of one machine are independent)"""
     if max(1, d.models) == 1:
         return d
+    return restrict_life(d, d.life_plan()[0][m]) if d.mops or d.start is not None else _single(d, d.history_of(m), None)
+
+
+def _single(d, history, initial):
     x = copy.copy(d)
-    x.history = d.history_of(m)
-    x.models, x.mhist, x.falsy = 1, [], []
+    x.history = history
+    if initial is not None:
+        x.initial = list(initial)
+    x.models, x.mhist, x.falsy, x.start, x.mops = 1, [], [], None, []
     return x
+
+
+def restrict_life(d, life):
+    """one life of one model (registration … removal) is a single-model history of a machine whose `initial` is the
+    one the registration used"""
+    return _single(d, [d.history[k] for k in life['items']], life['initial'])
+
+
+def n_lives(d):
+    return len(d.life_plan()[0]) if (d.mops or d.start is not None) else max(1, d.models)
 
 
 def run_batch(prop, stream, descs, offset, ex, only_classes=None, enum_states=None):
     streams, mon_kind = _REGISTRY[prop]
     enum_states = stream.enum_states if enum_states is None else enum_states
-    keys = [(i, m) for i, d in enumerate(descs) for m in range(max(1, d.models))]
-    ans = dict(zip(keys, common.batch_driver([('nested', descs[i].enc_case_model(m)) for i, m in keys])))
+    keys = [(i, m) for i, d in enumerate(descs) for m in range(n_lives(d))]
+    ans = dict(zip(keys, common.batch_driver([('nested', restrict(descs[i], m).enc_case()) for i, m in keys])))
     all_runs = []
     reqs, where = [], []
     for i, d in enumerate(descs):
@@ -315,8 +331,8 @@ def run_batch(prop, stream, descs, offset, ex, only_classes=None, enum_states=No
             runs[cls] = nested.run_guarded(d, cls, enum=enum_states)
             r, err = runs[cls]
             if r is not None and not err:
-                for m in range(max(1, d.models)):
-                    reqs.append(monitor_request(mon_kind, d, r.views[m]))
+                for m in range(n_lives(d)):
+                    reqs.append(monitor_request(mon_kind, restrict(d, m), r.life_views[m]))
                     where.append((i, m, cls))
         all_runs.append(runs)
     mons = {}
@@ -326,12 +342,12 @@ def run_batch(prop, stream, descs, offset, ex, only_classes=None, enum_states=No
     for i, (d, runs) in enumerate(zip(descs, all_runs)):
         ex.evaluations += 1
         hm = runs['HierarchicalMachine'][0]
-        for m in range(max(1, d.models)):
+        for m in range(n_lives(d)):
             a = ans[(i, m)]
             if a == 'oof':
                 ex.oof += 1
             mon = mons.get((i, m), {})
-            views = {cls: ((r.views[m] if (r is not None and not err) else r), err) for cls, (r, err) in runs.items()}
+            views = {cls: ((r.life_views[m] if (r is not None and not err) else r), err) for cls, (r, err) in runs.items()}
             fs = judge_case(prop, stream.name, restrict(d, m), a, views, mon, enum_states, full=d, mid=m)
             ex.failures += fs
             ex.traces_validated += len(mon)
@@ -616,6 +632,22 @@ def shrink_steps(case):
             del c['history'][i]
             if i < len(c.get('mhist', [])):
                 del c['mhist'][i]
+            for o in c.get('mops') or []:
+                if o[0] > i:
+                    o[0] -= 1
+            yield mk(c)
+    for j in range(len(d.get('mops') or [])):
+        c = copy.deepcopy(d)
+        del c['mops'][j]
+        yield mk(c)
+        if len(d['mops'][j][2]) > 1:
+            for q in range(len(d['mops'][j][2])):
+                c = copy.deepcopy(d)
+                del c['mops'][j][2][q]
+                yield mk(c)
+        if d['mops'][j][3] is not None:
+            c = copy.deepcopy(d)
+            c['mops'][j][3] = None
             yield mk(c)
     if d.get('suspend'):
         for i in range(len(d['suspend'])):
@@ -776,7 +808,8 @@ class NestedCheck(runner.Check):
         r, err = nested.run_guarded(d, cls, enum=bool(f.case.get('enum')))
         f.details['shrunk_class'] = cls
         if r is not None:
-            vw = r.views.get(f.case.get('model', 0), r.views[0])
+            li = f.case.get('model', 0)
+            vw = r.life_views[li] if li < len(r.life_views) else r.life_views[0]
             f.details['shrunk_model'] = f.case.get('model', 0)
             f.details['shrunk_states'] = vw.states_after
             f.details['shrunk_ghost'] = [' '.join(map(str, g)) for g in ghost(d, vw.items)]
@@ -806,7 +839,8 @@ class NestedCheck(runner.Check):
         d = nested.NDesc.from_json(case['desc'])
         cls = case.get('cls') or 'HierarchicalMachine'
         print('class:', cls, ' initial:', nested.pname(d.initial), ' queued:', d.queued, ' history:', d.history,
-              ' models:', d.models, ' model of each call:', d.mhist, ' falsy:', d.falsy, ' suspending callbacks:', d.suspend)
+              ' models:', d.models, ' model of each call:', d.mhist, ' falsy:', d.falsy, ' suspending callbacks:', d.suspend,
+              ' registered at construction:', d.start, ' membership operations [before call k, kind, models, initial]:', d.mops)
         for p, n in d.walk():
             print('  ' * len(p) + nested.pname(p), 'initial', [nested.seg(i) for i in n['initial']],
                   ['local e%d: %s -> %s' % (e, nested.pname(t['source']), t['dest'] and nested.pname(t['dest']))
@@ -816,8 +850,9 @@ class NestedCheck(runner.Check):
                 print('global e%d: %s -> %s' % (e, nested.pname(t['source']), t['dest'] and nested.pname(t['dest'])))
         r, err = nested.run_guarded(d, cls, enum=bool(case.get('enum')))
         if r is not None:
-            for m, vw in sorted(r.views.items()):
-                print('model %d: states after each of its calls:' % m, vw.states_after, ' recorder problems:', vw.bad[:3])
+            for li, vw in enumerate(r.life_views):
+                print('life %d (model %d): states after each of its calls:' % (li, r.lives[li]['model']), vw.states_after,
+                      ' recorder problems:', vw.bad[:3])
                 for g in ghost(d, vw.items):
                     print('   ', g)
         fs = self.rejudge(case)
